@@ -8,6 +8,13 @@
 //!              `_vdel:` records and therefore in the snapshot).  Then TTL on read / write / admin /
 //!              delegate paths (`ttl-write-path` … are the regression cases for the defect fixed by
 //!              4e577a4d: an expired grant must not authorise anything), revoke, delete, membership
+//!              `cascade-dag-*`: cascading revocation over delegation graphs that are NOT trees (diamond with a
+//!              different secret per record, cut at the top and at an inner record; second parent outside the revoked
+//!              branch; equal-depth diamond delegating onward + cycle / self attempts; both parents delegating the same
+//!              secret; records re-loaded by a re-opened vault; direct grants / membership that must stay)
+//!   dag      : random delegation graphs in which agents collect several delegating parents, then cascading
+//!              revocations of random records; get_permission for every (agent, secret) pair before and after,
+//!              get for every pair after
 //!   history  : random histories of 150-400 API calls by root + 3-5 identities (+2 groups) over
 //!              several secrets / namespaces; every answer compared with the model
 //!   perm     : random raw graphs (MEMBER chains / cycles / diamonds, legacy / unparsable /
@@ -22,6 +29,13 @@
 //!     strings read from the graph): any success of a node key on its OWN secret (where the path search answers
 //!     Admin through `source == target`) -> `tensor_vault.access/secret_node_key_as_identity`; on another secret the
 //!     general oracle applies with the search started at that secret's node
+//!   * after `revoke_delegation_cascading(p, c)`: the records that have to go are computed from the harness's OWN copy
+//!     of the delegation records (everything reachable from the record p -> c in the record graph: x -> y is followed
+//!     by every y -> z; no tree shape assumed), their grants are struck from the bookkeeping whatever the call
+//!     answers; a later success that only a struck grant explains
+//!     ->  `tensor_vault.revoke_delegation_cascading/derived_access_survives`; a record below the revoked one still in
+//!     the manager or under `_vdel:` -> `…/delegation_record_survives`; a pair that no revoked record touches and
+//!     that answers a lower level than before the call -> `…/unrelated_access_removed`
 //!   * a delegation whose effective level exceeds the requested level or the parent's own live level
 //!     ->  `tensor_vault.delegate/exceeds_parent_level`.  A delegation by a parent that holds less than
 //!     Admin is NOT a violation: the ceiling model ("agents delegate subsets of their own access",
@@ -189,6 +203,19 @@ struct Grant {
     alive: bool,
     /// delegation that created it (parent, child), if any
     deleg: Option<(usize, usize)>,
+    /// set when a cascading revocation had to remove it: the revoking call and the expiry window it had then
+    cascade: Option<(String, Option<(u64, u64)>)>,
+}
+
+/// which grants of the bookkeeping count for `best_level`
+#[derive(Clone, Copy, PartialEq, Eq)]
+enum Count {
+    /// unrevoked and unexpired
+    Live,
+    /// unrevoked, expired or not
+    IgnoreExpiry,
+    /// live ones plus those a cascading revocation had to remove (and that had not expired by themselves)
+    LiveOrCascadeRevoked,
 }
 
 struct World {
@@ -209,7 +236,14 @@ struct World {
     value_id: HashMap<String, usize>,
     grants: Vec<Grant>,
     members: Vec<(Nd, Nd, u64)>,
-    delegs: Vec<(usize, usize, Vec<usize>)>,
+    /// the harness's own copy of the delegation records: (parent, child, secrets, depth)
+    delegs: Vec<(usize, usize, Vec<usize>, u32)>,
+    max_deleg: u32,
+    /// probes after every cascading revocation: 0 none, 1 get_permission for every (agent, secret) pair + get on the
+    /// pairs that had to go, 2 get_permission before and after + get for every pair
+    sweep: u8,
+    /// answer of the last `get_permission` call (level, 0 = none)
+    last_perm: u8,
     t0: Instant,
     errors: Vec<String>,
     max_value_size: usize,
@@ -292,6 +326,9 @@ impl World {
             grants: Vec::new(),
             members: Vec::new(),
             delegs: Vec::new(),
+            max_deleg,
+            sweep: 1,
+            last_perm: 0,
             t0: Instant::now(),
             errors: Vec::new(),
             max_value_size,
@@ -441,17 +478,25 @@ impl World {
         d
     }
 
-    /// best level `req` holds on `sec` through grants satisfying `filter`
-    fn best_level(&self, req: usize, sec: usize, now: u64, live_only: bool) -> u8 {
+    /// best level `req` holds on `sec` through the grants of the bookkeeping that `count` admits
+    fn best_level_by(&self, req: usize, sec: usize, now: u64, count: Count) -> u8 {
         let Some(start) = self.req_nd(req) else { return 0 };
         let d = self.dists(start);
         let mut best = 0u8;
         for g in &self.grants {
-            if !g.alive || g.sec != sec {
+            if g.sec != sec {
                 continue;
             }
-            if live_only {
-                if let Some((lo, _)) = g.expiry {
+            let expiry = if g.alive {
+                g.expiry
+            } else {
+                match (&g.cascade, count) {
+                    (Some((_, exp)), Count::LiveOrCascadeRevoked) => *exp,
+                    _ => continue,
+                }
+            };
+            if count != Count::IgnoreExpiry {
+                if let Some((lo, _)) = expiry {
                     if now >= lo {
                         continue;
                     }
@@ -468,6 +513,88 @@ impl World {
         best
     }
 
+    fn best_level(&self, req: usize, sec: usize, now: u64, live_only: bool) -> u8 {
+        self.best_level_by(req, sec, now, if live_only { Count::Live } else { Count::IgnoreExpiry })
+    }
+
+    // ---------------- delegation records: the harness's own copy
+
+    /// every outcome `DelegationManager::register(parent, child)` can have over the records of the bookkeeping:
+    /// `None` = refused (self / cycle / depth), `Some(d)` = stored with depth `d`.  `delegation_depth` and
+    /// `is_ancestor` take "a" record whose child is the agent, in DashMap iteration order; with two delegating
+    /// parents the pick is not determined, so every pick is followed here.  A call is generated only when the set has
+    /// ONE element (then the answer and the stored depth do not depend on the pick).
+    fn register_outcomes(&self, parent: usize, child: usize) -> BTreeSet<Option<u32>> {
+        let mut out = BTreeSet::new();
+        if parent == child {
+            out.insert(None);
+            return out;
+        }
+        // is_ancestor(child, parent): walk upward from `parent`, any parent record at every step
+        let mut anc: BTreeSet<bool> = BTreeSet::new();
+        let mut stack: Vec<(usize, Vec<usize>)> = vec![(parent, vec![parent])];
+        let mut steps = 0;
+        while let Some((cur, seen)) = stack.pop() {
+            steps += 1;
+            if steps > 20_000 {
+                // give up: treat as order dependent
+                anc.insert(true);
+                anc.insert(false);
+                break;
+            }
+            let ups: Vec<usize> = self.delegs.iter().filter(|d| d.1 == cur).map(|d| d.0).collect();
+            if ups.is_empty() {
+                anc.insert(false);
+            }
+            for p in ups {
+                if p == child {
+                    anc.insert(true);
+                } else if seen.contains(&p) {
+                    anc.insert(false);
+                } else {
+                    let mut s2 = seen.clone();
+                    s2.push(p);
+                    stack.push((p, s2));
+                }
+            }
+        }
+        let mut depths: BTreeSet<u32> = self.delegs.iter().filter(|d| d.1 == parent).map(|d| d.3).collect();
+        if depths.is_empty() {
+            depths.insert(0);
+        }
+        for a in anc {
+            if a {
+                out.insert(None);
+            } else {
+                for d in &depths {
+                    out.insert(if d + 1 > self.max_deleg { None } else { Some(d + 1) });
+                }
+            }
+        }
+        out
+    }
+
+    /// the records a cascading revocation of `parent -> child` has to remove: that record and every record reachable
+    /// from it in the record graph (a record `x -> y` is followed by every record `y -> z`), whatever the shape —
+    /// chain, tree, diamond, an agent with several delegating parents.  Indices into `delegs`; empty when there is no
+    /// record `parent -> child`.
+    fn records_below(&self, parent: usize, child: usize) -> Vec<usize> {
+        let mut out: Vec<usize> = Vec::new();
+        let Some(first) = self.delegs.iter().position(|d| d.0 == parent && d.1 == child) else { return out };
+        out.push(first);
+        let mut i = 0;
+        while i < out.len() {
+            let agent = self.delegs[out[i]].1;
+            for (j, d) in self.delegs.iter().enumerate() {
+                if d.0 == agent && !out.contains(&j) {
+                    out.push(j);
+                }
+            }
+            i += 1;
+        }
+        out
+    }
+
     fn relevant_history(&self, req: usize, sec: usize) -> Vec<String> {
         let rq = format!(" {req} ");
         let sid = self.sec_ids[sec].to_string();
@@ -475,7 +602,7 @@ impl World {
             .lines
             .iter()
             .filter(|l| {
-                l.starts_with("pol") || l.contains("member") || l.starts_with("sleep") || (l.split(' ').any(|w| w == sid || w.split(',').any(|x| x == sid)) && (l.contains(&rq) || l.starts_with("set") || l.contains("grant") || l.contains("deleg") || l.contains("revoke") || l.starts_with("delete")))
+                l.starts_with("pol") || l.contains("member") || l.starts_with("sleep") || l.starts_with("undelegate") || l.starts_with("reopen") || (l.split(' ').any(|w| w == sid || w.split(',').any(|x| x == sid)) && (l.contains(&rq) || l.starts_with("set") || l.contains("grant") || l.contains("deleg") || l.contains("revoke") || l.starts_with("delete")))
             })
             .cloned()
             .collect();
@@ -513,6 +640,27 @@ impl World {
             return;
         }
         let any = self.best_level(req, sec, now, false);
+        let casc = self.best_level_by(req, sec, now, Count::LiveOrCascadeRevoked);
+        if any < need && casc >= need {
+            // the only thing behind this success is a grant that a cascading revocation had to take away
+            let class = "tensor_vault.revoke_delegation_cascading/derived_access_survives";
+            rep.hit(&format!("violation.{class}"));
+            let culprits: Vec<String> = self
+                .grants
+                .iter()
+                .filter(|g| g.sec == sec && !g.alive && g.cascade.is_some())
+                .map(|g| format!("delegation {:?} gave identity {} level {} on this secret; it lies below the delegation revoked by `{}`", g.deleg, g.ent, g.level, g.cascade.as_ref().map_or("", |c| c.0.as_str())))
+                .collect();
+            rep.violation(
+                class,
+                &format!("after a cascading revocation a non-root requester still succeeds with `{op}` (level {need}) through access that was delegated onward from the revoked delegation: the best live grant of the bookkeeping gives level {live}; level {casc} only when the grants that the cascade had to remove are counted"),
+                json!({"failing_call": line, "operation": op, "time_us": now, "policy": format!("{:?}", self.pol),
+                       "grants_the_cascade_had_to_remove": culprits,
+                       "delegation_records_left_in_the_bookkeeping (parent, child, secrets, depth)": self.delegs.iter().map(|d| format!("{:?}", (d.0, d.1, d.2.iter().map(|s| self.sec_ids[*s]).collect::<Vec<_>>(), d.3))).collect::<Vec<_>>(),
+                       "history_slice (model protocol; identity 0 = root; times in microseconds)": self.relevant_history(req, sec)}),
+            );
+            return;
+        }
         let kind = if any >= need { "expired_grant_authorises" } else { "access_without_grant" };
         let class = format!("tensor_vault.{op}/{kind}");
         rep.hit(&format!("violation.{class}"));
@@ -538,7 +686,7 @@ impl World {
             }
             self.sec_exists[sec] = true;
             self.discover_sec_node(sec);
-            self.grants.push(Grant { ent: 0, sec, level: 3, expiry: None, alive: true, deleg: None });
+            self.grants.push(Grant { ent: 0, sec, level: 3, expiry: None, alive: true, deleg: None, cascade: None });
         }
     }
 
@@ -820,6 +968,7 @@ fn exec(w: &mut World, m: &mut Model, rep: &mut Report, r: &mut Rng, stream: &st
             let imp = out.map_or("none".to_string(), |l| l.to_string());
             let line = format!("perm {t0} {req} {}", w.sec_ids[*sec]);
             let imp = finish!("permq", line.clone(), imp, t0);
+            w.last_perm = imp.parse::<u8>().unwrap_or(0);
             if let Ok(l) = imp.parse::<u8>() {
                 // whatever level it reports must be backed by a live grant of at least that level
                 w.check_access(rep, "get_permission", *req, *sec, l, t0, &line);
@@ -940,7 +1089,7 @@ fn exec(w: &mut World, m: &mut Model, rep: &mut Report, r: &mut Rng, stream: &st
             let imp = finish!("grant", line.clone(), imp, t0);
             if imp == "ok" {
                 w.check_access(rep, "grant", *req, *sec, 3, t0, &line);
-                w.grants.push(Grant { ent: *ent, sec: *sec, level: *level, expiry: None, alive: true, deleg: None });
+                w.grants.push(Grant { ent: *ent, sec: *sec, level: *level, expiry: None, alive: true, deleg: None, cascade: None });
             }
         }
         Op::GrantTtl { req, ent, sec, level, ttl_ms } => {
@@ -953,7 +1102,7 @@ fn exec(w: &mut World, m: &mut Model, rep: &mut Report, r: &mut Rng, stream: &st
             let imp = finish!("grantttl", line.clone(), imp, t0);
             if imp == "ok" {
                 w.check_access(rep, "grant_with_ttl", *req, *sec, 3, t0, &line);
-                w.grants.push(Grant { ent: *ent, sec: *sec, level: *level, expiry: Some((t0 + ttl_ms * 1000, t1 + ttl_ms * 1000)), alive: true, deleg: None });
+                w.grants.push(Grant { ent: *ent, sec: *sec, level: *level, expiry: Some((t0 + ttl_ms * 1000, t1 + ttl_ms * 1000)), alive: true, deleg: None, cascade: None });
             }
         }
         Op::Revoke { req, ent, sec } => {
@@ -979,8 +1128,11 @@ fn exec(w: &mut World, m: &mut Model, rep: &mut Report, r: &mut Rng, stream: &st
             let out = w.vault.delegate(&pa, &ch, &refs, perm_of(*level), ttl_ms.map(Duration::from_millis));
             let t1 = w.now();
             let mut eff = 0u8;
+            let mut depth = 0u32;
+            let outcomes = w.register_outcomes(*parent, *child);
             let out = out.map(|rec| {
                 eff = lvl(rec.max_permission);
+                depth = rec.delegation_depth;
                 format!("ok l{eff}")
             });
             let imp = res(w, out);
@@ -990,9 +1142,23 @@ fn exec(w: &mut World, m: &mut Model, rep: &mut Report, r: &mut Rng, stream: &st
                 ttl_ms.map_or("-".to_string(), |t| (t * 1000).to_string())
             );
             let imp = finish!("delegate", line.clone(), imp, t0);
+            if outcomes.len() > 1 {
+                // (hand-written scenarios and the generators avoid these: the answer depends on DashMap order)
+                rep.hit("delegate.order_dependent_call");
+            }
             if imp.starts_with("ok") {
-                w.delegs.retain(|(p, c, _)| !(p == parent && c == child));
-                w.delegs.push((*parent, *child, secs.clone()));
+                if w.delegs.iter().any(|d| d.1 == *child && d.0 != *parent) {
+                    rep.hit("delegate.child_with_second_parent");
+                    if w.delegs.iter().any(|d| d.1 == *child && d.0 != *parent && d.3 != depth) {
+                        rep.hit("delegate.child_at_two_depths");
+                    }
+                }
+                if outcomes.len() == 1 && !outcomes.contains(&Some(depth)) {
+                    rep.hit("delegate.depth_not_as_computed");
+                    rep.note(&format!("delegate stored depth {depth}, the bookkeeping computed {outcomes:?}: {line}"));
+                }
+                w.delegs.retain(|d| !(d.0 == *parent && d.1 == *child));
+                w.delegs.push((*parent, *child, secs.clone(), depth));
                 if eff > *level {
                     rep.violation("tensor_vault.delegate/exceeds_parent_level", &format!("delegate answered effective level {eff} above the requested level {level}"), json!({"failing_call": line}));
                 }
@@ -1018,7 +1184,7 @@ fn exec(w: &mut World, m: &mut Model, rep: &mut Report, r: &mut Rng, stream: &st
                             rep.hit("observe.delegate_by_non_admin");
                         }
                     }
-                    w.grants.push(Grant { ent: *child, sec: *s, level: eff, expiry: ttl_ms.map(|t| (t0 + t * 1000, t1 + t * 1000)), alive: true, deleg: Some((*parent, *child)) });
+                    w.grants.push(Grant { ent: *child, sec: *s, level: eff, expiry: ttl_ms.map(|t| (t0 + t * 1000, t1 + t * 1000)), alive: true, deleg: Some((*parent, *child)), cascade: None });
                 }
             }
         }
@@ -1034,7 +1200,7 @@ fn exec(w: &mut World, m: &mut Model, rep: &mut Report, r: &mut Rng, stream: &st
             let line = format!("undelegate {t0} {parent} {child}");
             let imp = finish!("undelegate", line, imp, t0);
             if imp.starts_with("ok") {
-                w.delegs.retain(|(p, c, _)| !(p == parent && c == child));
+                w.delegs.retain(|d| !(d.0 == *parent && d.1 == *child));
                 // only the grants of the record that was actually removed (a later delegate(parent, child, other
                 // secrets) REPLACES the record; the earlier delegation's edges then stay and are still unrevoked)
                 let revoked: Vec<u64> = imp.trim_start_matches("ok ").split(',').filter_map(|x| x.parse().ok()).collect();
@@ -1241,6 +1407,34 @@ fn exec(w: &mut World, m: &mut Model, rep: &mut Report, r: &mut Rng, stream: &st
             let _ = finish!("unwrap", line, imp, t0);
         }
         Op::UndelegateCascade { parent, child } => {
+            // what has to go, from the harness's own copy of the records (not from the answer of the call, not from the model)
+            let below: Vec<(usize, usize, Vec<usize>, u32)> = w.records_below(*parent, *child).into_iter().map(|i| w.delegs[i].clone()).collect();
+            let agents: Vec<usize> = (1..w.idents.len()).filter(|a| *a <= w.n_users || w.delegs.iter().any(|d| d.1 == *a || d.0 == *a)).collect();
+            let secs_now: Vec<usize> = (0..w.sec_names.len()).filter(|s| w.sec_exists[*s]).collect();
+            let shape = (
+                below.len(),
+                below.iter().filter(|d| below.iter().any(|e| e.1 == d.1 && e.0 != d.0)).count(),
+                below.iter().filter(|d| w.delegs.iter().any(|e| e.1 == d.1 && e.0 != d.0 && !below.iter().any(|b| b.0 == e.0 && b.1 == e.1))).count(),
+            );
+            rep.hit(&format!("undelegatec.shape.records_below_{}", shape.0.min(6)));
+            if shape.1 > 0 {
+                rep.hit("undelegatec.shape.agent_reached_through_two_revoked_records");
+            }
+            if shape.2 > 0 {
+                rep.hit("undelegatec.shape.agent_keeps_a_delegation_from_outside");
+            }
+            // levels before (sweep 2): what must not change for the pairs the revoked records do not touch
+            let mut before: BTreeMap<(usize, usize), u8> = BTreeMap::new();
+            if w.sweep >= 2 {
+                for &a in &agents {
+                    for &sx in &secs_now {
+                        if !exec(w, m, rep, r, stream, &Op::Perm { req: a, sec: sx }) {
+                            return false;
+                        }
+                        before.insert((a, sx), w.last_perm);
+                    }
+                }
+            }
             let t0 = w.clear_time();
             let out = w.vault.revoke_delegation_cascading(&w.req_str(*parent), &w.idents[*child].clone());
             let mut revoked: Vec<(usize, usize, Vec<usize>)> = Vec::new();
@@ -1257,14 +1451,87 @@ fn exec(w: &mut World, m: &mut Model, rep: &mut Report, r: &mut Rng, stream: &st
             });
             let imp = res(w, out);
             let line = format!("undelegatec {t0} {parent} {child}");
-            let imp = finish!("undelegatec", line, imp, t0);
+            let imp = finish!("undelegatec", line.clone(), imp, t0);
             if imp.starts_with("ok") {
                 rep.hit_n("undelegatec.records_revoked", revoked.len() as u64);
-                for (p, c, secs) in revoked {
-                    w.delegs.retain(|(pp, cc, _)| !(*pp == p && *cc == c));
-                    for g in w.grants.iter_mut().filter(|g| g.deleg == Some((p, c)) && secs.contains(&g.sec)) {
+                // bookkeeping: every record below the revoked one is dead whether or not the call says so; what the
+                // call reports beyond that (a cascade from a pair that has no record still clears what hangs below the
+                // child) is dead too
+                let mut dead: Vec<(usize, usize, Vec<usize>)> = below.iter().map(|d| (d.0, d.1, d.2.clone())).collect();
+                for x in &revoked {
+                    if !dead.iter().any(|d| d.0 == x.0 && d.1 == x.1) {
+                        dead.push(x.clone());
+                    }
+                }
+                for (p, c, secs) in &dead {
+                    w.delegs.retain(|d| !(d.0 == *p && d.1 == *c));
+                    for g in w.grants.iter_mut().filter(|g| g.alive && g.deleg == Some((*p, *c)) && secs.contains(&g.sec)) {
                         g.alive = false;
+                        g.cascade = Some((line.clone(), g.expiry));
                         g.expiry = None;
+                    }
+                }
+                // the records themselves: none below the revoked one may be left in the manager or at rest
+                let persisted = w.vstore.scan("_vdel:");
+                for d in &below {
+                    let (ps, cs) = (w.req_str(d.0), w.idents[d.1].clone());
+                    let in_mgr = w.vault.delegation_manager().get_delegation(&ps, &cs).is_some();
+                    let at_rest = persisted.iter().any(|k| *k == format!("_vdel:{ps}:{cs}"));
+                    if in_mgr || at_rest {
+                        let class = "tensor_vault.revoke_delegation_cascading/delegation_record_survives";
+                        rep.hit(&format!("violation.{class}"));
+                        rep.violation(
+                            class,
+                            &format!("the delegation record {} -> {} lies below the revoked delegation {parent} -> {child} and is still there after the cascading revocation (in the manager: {in_mgr}, persisted under _vdel: {at_rest})", d.0, d.1),
+                            json!({"failing_call": line, "records_below_the_revoked_one (parent, child, secrets, depth)": below.iter().map(|d| format!("{:?}", (d.0, d.1, d.2.iter().map(|s| w.sec_ids[*s]).collect::<Vec<_>>(), d.3))).collect::<Vec<_>>(),
+                                   "records_the_call_reported": imp, "history (model protocol; identity 0 = root)": w.lines.iter().filter(|l| l.starts_with("pol") || l.contains("deleg") || l.starts_with("reopen")).collect::<Vec<_>>()}),
+                        );
+                    }
+                }
+                // probes: every (agent, secret) pair through get_permission (and get); `check_access` files a
+                // success that only a removed delegation explains under revoke_delegation_cascading/derived_access_survives
+                if w.sweep >= 1 {
+                    let touched: BTreeSet<(usize, usize)> = dead.iter().flat_map(|(_, c, secs)| secs.iter().map(move |s| (*c, *s))).collect();
+                    for &a in &agents {
+                        for &sx in &secs_now {
+                            if !exec(w, m, rep, r, stream, &Op::Perm { req: a, sec: sx }) {
+                                return false;
+                            }
+                            let after = w.last_perm;
+                            rep.hit("undelegatec.probe.get_permission");
+                            if touched.contains(&(a, sx)) {
+                                rep.hit(if after == 0 { "undelegatec.probe.revoked_pair_has_nothing" } else { "undelegatec.probe.revoked_pair_keeps_other_access" });
+                            }
+                            if let Some(&b) = before.get(&(a, sx)) {
+                                // a pair none of the revoked records (nor anything the requester is a MEMBER of) touches,
+                                // with no expiry pending on the secret, keeps exactly what it had
+                                let reach: Vec<Nd> = w.dists(Nd::Ent(a)).keys().copied().collect();
+                                let near = reach.iter().any(|n| matches!(n, Nd::Ent(e) if touched.contains(&(*e, sx))));
+                                let timed = w.grants.iter().any(|g| g.sec == sx && g.expiry.is_some());
+                                if !near && !timed {
+                                    rep.hit("undelegatec.probe.untouched_pair_compared");
+                                    if b > 0 {
+                                        rep.hit("undelegatec.probe.untouched_pair_keeps_access");
+                                    }
+                                    if after < b {
+                                        let class = "tensor_vault.revoke_delegation_cascading/unrelated_access_removed";
+                                        rep.hit(&format!("violation.{class}"));
+                                        rep.violation(
+                                            class,
+                                            &format!("identity {a} held level {b} on secret {} through grants that are not below the revoked delegation {parent} -> {child}; after the cascading revocation get_permission answers level {after}", w.sec_ids[sx]),
+                                            json!({"failing_call": line, "records_below_the_revoked_one": below.iter().map(|d| format!("{:?}", (d.0, d.1, d.2.iter().map(|s| w.sec_ids[*s]).collect::<Vec<_>>()))).collect::<Vec<_>>(),
+                                                   "history_slice (model protocol)": w.relevant_history(a, sx)}),
+                                        );
+                                    }
+                                }
+                            }
+                            if w.sweep >= 2 || touched.contains(&(a, sx)) {
+                                if !exec(w, m, rep, r, stream, &Op::Get { req: a, sec: sx }) {
+                                    return false;
+                                }
+                                rep.hit("undelegatec.probe.get");
+                            }
+                        }
                     }
                 }
             }
@@ -1555,19 +1822,25 @@ fn gen_op(w: &World, r: &mut Rng) -> Op {
             }
         }
         77..=82 => {
-            // delegate: keep every child under a single parent (DelegationManager picks "a" record by
-            // DashMap iteration order otherwise, which is not deterministic)
+            // delegate.  DelegationManager::delegation_depth / is_ancestor take "a" record whose child is the agent, in
+            // DashMap iteration order: a call is generated only when every pick gives the same answer and the same
+            // stored depth (`register_outcomes`), which still lets an agent collect several delegating parents —
+            // diamonds, the same agent below two branches, a second parent outside the branch
             let (parent, s0) = match (r.chance(2, 3), holder(r, 1)) {
                 (true, Some(x)) => x,
                 _ => (requester(r), sec(r)),
             };
             let mut child = 1 + r.below(w.n_users as u64) as usize;
+            if !w.delegs.is_empty() && r.chance(1, 3) {
+                // an agent that already holds a delegation (from this or another parent)
+                child = r.pick(&w.delegs).1;
+            }
             for _ in 0..4 {
-                if w.delegs.iter().any(|(p, c, _)| *c == child && *p != parent) {
+                if w.register_outcomes(parent, child).len() != 1 {
                     child = 1 + r.below(w.n_users as u64) as usize;
                 }
             }
-            if w.delegs.iter().any(|(p, c, _)| *c == child && *p != parent) {
+            if w.register_outcomes(parent, child).len() != 1 {
                 return Op::Get { req: requester(r), sec: sec(r) };
             }
             let mut secs = vec![s0];
@@ -1580,9 +1853,9 @@ fn gen_op(w: &World, r: &mut Rng) -> Op {
             Op::Delegate { parent, child, secs, level: 1 + r.below(3) as u8, ttl_ms: if r.chance(1, 3) { Some(6 + r.below(40)) } else { None } }
         }
         83..=84 => {
-            let cascade = r.chance(2, 5);
+            let cascade = r.chance(2, 5) || (w.delegs.len() >= 3 && r.chance(1, 2));
             let (p, c) = if !w.delegs.is_empty() && r.chance(4, 5) {
-                let (p, c, _) = r.pick(&w.delegs).clone();
+                let (p, c, _, _) = r.pick(&w.delegs).clone();
                 // a cascade may also start at a node that has no direct record from `p`
                 if cascade && r.chance(1, 4) { (requester(r), c) } else { (p, c) }
             } else {
@@ -1726,6 +1999,141 @@ fn directed(m: &mut Model, rep: &mut Report, root: &Rng, seen: &mut BTreeSet<Str
                 Op::Set { req: 3, sec: 1, big: false },
             ],
         ),
+        // ---- cascading revocation over delegation graphs that are NOT trees (5 agents: A=1 B=2 C=3 D=4 E=5).  Every
+        // cascading revocation is preceded and followed by get_permission for every (agent, secret) pair and followed
+        // by get for every pair (`sweep` 2); what has to go is computed from the harness's own copy of the records.
+        (
+            // D holds delegations from B (s0) and from C (s1), both below A -> B: nothing of B, C, D may survive
+            "cascade-dag-diamond-two-secrets",
+            vec![
+                Op::Set { req: 0, sec: 0, big: false },
+                Op::Set { req: 0, sec: 1, big: false },
+                Op::Grant { req: 0, ent: 1, sec: 0, level: 3, plain_api: true },
+                Op::Grant { req: 0, ent: 1, sec: 1, level: 3, plain_api: true },
+                Op::Delegate { parent: 1, child: 2, secs: vec![0, 1], level: 2, ttl_ms: None },
+                Op::Delegate { parent: 2, child: 3, secs: vec![0, 1], level: 1, ttl_ms: None },
+                Op::Delegate { parent: 2, child: 4, secs: vec![0], level: 1, ttl_ms: None },
+                Op::Delegate { parent: 3, child: 4, secs: vec![1], level: 1, ttl_ms: None },
+                Op::Get { req: 4, sec: 1 },
+                Op::UndelegateCascade { parent: 1, child: 2 },
+                Op::List { req: 4, pat: 0, arg: 0, via: 0 },
+                Op::Get { req: 1, sec: 1 },
+                Op::UndelegateCascade { parent: 1, child: 2 },
+            ],
+        ),
+        (
+            // the same graph cut at the inner record B -> C: C -> D goes, B -> D and everything of B stays
+            "cascade-dag-inner-record",
+            vec![
+                Op::Set { req: 0, sec: 0, big: false },
+                Op::Set { req: 0, sec: 1, big: false },
+                Op::Grant { req: 0, ent: 1, sec: 0, level: 3, plain_api: true },
+                Op::Grant { req: 0, ent: 1, sec: 1, level: 3, plain_api: true },
+                Op::Delegate { parent: 1, child: 2, secs: vec![0, 1], level: 2, ttl_ms: None },
+                Op::Delegate { parent: 2, child: 3, secs: vec![0, 1], level: 1, ttl_ms: None },
+                Op::Delegate { parent: 2, child: 4, secs: vec![0], level: 1, ttl_ms: None },
+                Op::Delegate { parent: 3, child: 4, secs: vec![1], level: 1, ttl_ms: None },
+                Op::UndelegateCascade { parent: 2, child: 3 },
+                Op::UndelegateCascade { parent: 1, child: 2 },
+            ],
+        ),
+        (
+            // D's second delegating parent is outside the revoked branch: D keeps s1, loses s0; then the other branch
+            "cascade-dag-second-parent-outside",
+            vec![
+                Op::Set { req: 0, sec: 0, big: false },
+                Op::Set { req: 0, sec: 1, big: false },
+                Op::Grant { req: 0, ent: 1, sec: 0, level: 3, plain_api: true },
+                Op::Grant { req: 0, ent: 3, sec: 1, level: 3, plain_api: true },
+                Op::Delegate { parent: 1, child: 2, secs: vec![0], level: 2, ttl_ms: None },
+                Op::Delegate { parent: 2, child: 4, secs: vec![0], level: 1, ttl_ms: None },
+                Op::Delegate { parent: 3, child: 4, secs: vec![1], level: 1, ttl_ms: None },
+                Op::UndelegateCascade { parent: 1, child: 2 },
+                Op::UndelegateCascade { parent: 3, child: 4 },
+            ],
+        ),
+        (
+            // diamond with both branches at the same depth, D delegates onward to E; attempts to close a cycle back to
+            // an ancestor (refused whichever parent record the walk takes) and to delegate to oneself; cut one branch:
+            // D -> E goes (it was delegated onward from B -> D), C -> D stays; D delegates again; cut the other branch
+            "cascade-dag-diamond-onward-and-cycle-attempts",
+            vec![
+                Op::Set { req: 0, sec: 0, big: false },
+                Op::Set { req: 0, sec: 1, big: false },
+                Op::Grant { req: 0, ent: 1, sec: 0, level: 3, plain_api: true },
+                Op::Grant { req: 0, ent: 1, sec: 1, level: 3, plain_api: true },
+                Op::Delegate { parent: 1, child: 2, secs: vec![0, 1], level: 2, ttl_ms: None },
+                Op::Delegate { parent: 1, child: 3, secs: vec![0, 1], level: 2, ttl_ms: None },
+                Op::Delegate { parent: 2, child: 4, secs: vec![0], level: 2, ttl_ms: None },
+                Op::Delegate { parent: 3, child: 4, secs: vec![1], level: 2, ttl_ms: None },
+                Op::Delegate { parent: 4, child: 5, secs: vec![0, 1], level: 1, ttl_ms: None },
+                Op::Delegate { parent: 5, child: 1, secs: vec![0], level: 1, ttl_ms: None },
+                Op::Delegate { parent: 4, child: 1, secs: vec![1], level: 1, ttl_ms: None },
+                Op::Delegate { parent: 2, child: 2, secs: vec![0], level: 1, ttl_ms: None },
+                Op::UndelegateCascade { parent: 1, child: 2 },
+                Op::Delegate { parent: 4, child: 5, secs: vec![1], level: 1, ttl_ms: None },
+                Op::Get { req: 5, sec: 1 },
+                Op::UndelegateCascade { parent: 1, child: 3 },
+            ],
+        ),
+        (
+            // both parents delegate the SAME secret to D: revoking B -> D drops every edge D -> s0 (the record C -> D
+            // stays; fail-closed, the model mirrors it); C delegates again; then the branch of C goes
+            "cascade-dag-same-secret-two-parents",
+            vec![
+                Op::Set { req: 0, sec: 0, big: false },
+                Op::Grant { req: 0, ent: 1, sec: 0, level: 3, plain_api: true },
+                Op::Delegate { parent: 1, child: 2, secs: vec![0], level: 2, ttl_ms: None },
+                Op::Delegate { parent: 1, child: 3, secs: vec![0], level: 2, ttl_ms: None },
+                Op::Delegate { parent: 2, child: 4, secs: vec![0], level: 1, ttl_ms: None },
+                Op::Delegate { parent: 3, child: 4, secs: vec![0], level: 1, ttl_ms: None },
+                Op::UndelegateCascade { parent: 2, child: 4 },
+                Op::Delegate { parent: 3, child: 4, secs: vec![0], level: 1, ttl_ms: None },
+                Op::Get { req: 4, sec: 0 },
+                Op::UndelegateCascade { parent: 1, child: 3 },
+                Op::UndelegateCascade { parent: 1, child: 2 },
+            ],
+        ),
+        (
+            // the records come back from the store (re-opened vault), the second record into D carries a TTL
+            "cascade-dag-after-reopen",
+            vec![
+                Op::Set { req: 0, sec: 0, big: false },
+                Op::Set { req: 0, sec: 1, big: false },
+                Op::Set { req: 0, sec: 2, big: false },
+                Op::Delegate { parent: 0, child: 1, secs: vec![0, 1, 2], level: 3, ttl_ms: None },
+                Op::Delegate { parent: 1, child: 2, secs: vec![0, 1], level: 2, ttl_ms: None },
+                Op::Delegate { parent: 1, child: 5, secs: vec![2], level: 2, ttl_ms: None },
+                Op::Delegate { parent: 2, child: 3, secs: vec![1], level: 1, ttl_ms: None },
+                Op::Delegate { parent: 2, child: 4, secs: vec![0], level: 1, ttl_ms: None },
+                Op::Delegate { parent: 3, child: 4, secs: vec![1], level: 1, ttl_ms: Some(600_000) },
+                Op::Reopen,
+                Op::UndelegateCascade { parent: 1, child: 2 },
+                Op::Reopen,
+                Op::Get { req: 4, sec: 1 },
+                Op::Get { req: 5, sec: 2 },
+                Op::UndelegateCascade { parent: 0, child: 1 },
+            ],
+        ),
+        (
+            // what is NOT below the revoked record stays: a direct grant to C on another secret, a direct grant to an
+            // agent outside, a member of a group that holds its own grant
+            "cascade-dag-direct-grants-stay",
+            vec![
+                Op::Set { req: 0, sec: 0, big: false },
+                Op::Set { req: 0, sec: 1, big: false },
+                Op::Grant { req: 0, ent: 1, sec: 0, level: 3, plain_api: true },
+                Op::Delegate { parent: 1, child: 2, secs: vec![0], level: 2, ttl_ms: None },
+                Op::Delegate { parent: 2, child: 3, secs: vec![0], level: 1, ttl_ms: None },
+                Op::Grant { req: 0, ent: 3, sec: 1, level: 2, plain_api: false },
+                Op::Grant { req: 0, ent: 4, sec: 0, level: 1, plain_api: false },
+                Op::Grant { req: 0, ent: 6, sec: 1, level: 1, plain_api: false },
+                Op::AddMember { a: 5, b: Nd::Ent(6) },
+                Op::AddMember { a: 2, b: Nd::Ent(6) },
+                Op::UndelegateCascade { parent: 1, child: 2 },
+                Op::Get { req: 0, sec: 2 },
+            ],
+        ),
         (
             "ttl-read-path",
             vec![
@@ -1748,6 +2156,30 @@ fn directed(m: &mut Model, rep: &mut Report, root: &Rng, seen: &mut BTreeSet<Str
                 Op::Rotate { req: 1, sec: 0, big: false },
                 Op::Get { req: 1, sec: 0 },
                 Op::Set { req: 1, sec: 0, big: false },
+            ],
+        ),
+        (
+            // the tracker is keyed by (entity, secret) only: a second TTL grant of a LOWER level with a LONGER ttl to the
+            // same pair must not carry the first, higher grant past its own ttl (shortest history for a tracker that
+            // replaces the earlier deadline of the pair instead of keeping both); same through delegate(.., ttl)
+            "ttl-second-grant-lower-and-longer",
+            vec![
+                Op::Set { req: 0, sec: 0, big: false },
+                Op::GrantTtl { req: 0, ent: 1, sec: 0, level: 3, ttl_ms: 15 },
+                Op::GrantTtl { req: 0, ent: 1, sec: 0, level: 1, ttl_ms: 600_000 },
+                Op::Perm { req: 1, sec: 0 },
+                Op::Sleep { ms: 30 },
+                Op::Perm { req: 1, sec: 0 },
+                Op::Set { req: 1, sec: 0, big: false },
+                Op::Grant { req: 1, ent: 2, sec: 0, level: 1, plain_api: false },
+                Op::Get { req: 1, sec: 0 },
+                Op::Set { req: 0, sec: 1, big: false },
+                Op::Grant { req: 0, ent: 3, sec: 1, level: 3, plain_api: true },
+                Op::Delegate { parent: 3, child: 2, secs: vec![1], level: 2, ttl_ms: Some(15) },
+                Op::GrantTtl { req: 0, ent: 2, sec: 1, level: 1, ttl_ms: 600_000 },
+                Op::Sleep { ms: 30 },
+                Op::Rotate { req: 2, sec: 1, big: false },
+                Op::Get { req: 2, sec: 1 },
             ],
         ),
         (
@@ -2027,7 +2459,9 @@ fn directed(m: &mut Model, rep: &mut Report, root: &Rng, seen: &mut BTreeSet<Str
     for (name, ops) in scenarios {
         let mut r = root.fork(name);
         let mvs = if name == "size-limit-default" || name == "names-at-rest-known" || name == "size-boundary-default" || name == "secret-node-key-as-identity" { 65_531 } else { 96 };
-        let mut w = World::new(&mut r, m, Pol { admin_limit: 1, write_limit: 2, horizon: 10 }, 3, mvs, 3, 3, 3);
+        let dag = name.starts_with("cascade-dag");
+        let mut w = World::new(&mut r, m, Pol { admin_limit: 1, write_limit: 2, horizon: 10 }, if dag { 4 } else { 3 }, mvs, 3, if dag { 5 } else { 3 }, 3);
+        w.sweep = 2;
         if name == "names-at-rest-known" {
             // names long enough for the plaintext scan whatever the seed (namespace prefix kept)
             // pure ASCII (no JSON escaping in the persisted trackers), namespace convention of `sec_ids` kept
@@ -2104,6 +2538,159 @@ fn histories(m: &mut Model, rep: &mut Report, root: &Rng, n: usize, seen: &mut B
         if h < 2 {
             rep.sample(json!({"stream": "history", "policy": format!("{pol:?}"), "users": n_users, "secrets": n_secrets, "ops": done,
                               "first_lines": w.lines.iter().take(25).collect::<Vec<_>>()}));
+        }
+    }
+}
+
+/// random delegation graphs (an agent may collect several delegating parents, from the same branch or from outside,
+/// at equal or different depths, for the same or for different secrets; cycle and self attempts), then cascading
+/// revocations of random records, each followed by the probes of `exec` (every (agent, secret) pair)
+fn dag_stream(m: &mut Model, rep: &mut Report, root: &Rng, n: usize) {
+    let pols = policies();
+    for c in 0..n {
+        let mut r = root.fork(&format!("dag{c}"));
+        let pol = if r.chance(1, 2) { pols[0] } else { *r.pick(&pols) };
+        let n_users = 4 + r.below(3) as usize;
+        // half of the cases grow the graph inside ONE branch (below the first delegation made) and cut that branch: an
+        // agent then collects several delegating parents that all lie below the revoked record
+        let stem_mode = r.chance(1, 2);
+        let max_deleg = if stem_mode { 3 + r.below(3) as u32 } else { 2 + r.below(4) as u32 };
+        let mut w = World::new(&mut r, m, pol, max_deleg, 256, 3, n_users, 3);
+        w.sweep = 2;
+        let na = w.idents.len(); // agents 1..na (the two groups act as plain agents here)
+        let mut stem: Option<(usize, usize)> = None;
+        let mut ok = true;
+        macro_rules! go {
+            ($op:expr) => {{
+                let op = $op;
+                if ok && !exec(&mut w, m, rep, &mut r, "dag", &op) {
+                    ok = false;
+                }
+            }};
+        }
+        for sx in 0..3 {
+            go!(Op::Set { req: 0, sec: sx, big: false });
+        }
+        // one or two agents hold direct grants from root
+        for _ in 0..(1 + r.below(2)) {
+            let ent = 1 + r.below(2) as usize;
+            let level = if r.chance(2, 3) { 3 } else { 2 };
+            for sx in 0..3 {
+                if r.chance(3, 4) {
+                    go!(Op::Grant { req: 0, ent, sec: sx, level, plain_api: false });
+                }
+            }
+        }
+        let mut cascades = 0u32;
+        let mut two_parent = false;
+        let mut biggest = 0usize;
+        let rounds = 1 + r.below(2);
+        for round in 0..rounds {
+            let attempts = if round == 0 { 5 + r.below(7) } else { 2 + r.below(4) };
+            for _ in 0..attempts {
+                if !ok {
+                    break;
+                }
+                let now = w.now();
+                // a parent that holds something (root now and then), a child that — half of the time — already has a parent
+                let holders: Vec<usize> = (1..na).filter(|a| (0..3).any(|sx| w.best_level(*a, sx, now, true) > 0)).collect();
+                // (a parent that was itself delegated to makes the graph deeper: both parents of an agent then lie in one branch)
+                let deep: Vec<usize> = holders.iter().copied().filter(|a| w.delegs.iter().any(|d| d.1 == *a)).collect();
+                let parent = if holders.is_empty() || r.chance(1, 12) {
+                    if r.chance(1, 2) { 0 } else { 1 + r.below(na as u64 - 1) as usize }
+                } else if !deep.is_empty() && r.chance(1, 2) {
+                    *r.pick(&deep)
+                } else {
+                    *r.pick(&holders)
+                };
+                let child = if !w.delegs.is_empty() && r.chance(1, 2) { r.pick(&w.delegs).1 } else { 1 + r.below(na as u64 - 1) as usize };
+                let (parent, child) = match stem {
+                    Some((sp, sc)) if stem_mode && r.chance(5, 6) => {
+                        // inside the branch: parent = an agent of the branch that holds something
+                        let mut branch: Vec<usize> = vec![sc];
+                        for i in w.records_below(sp, sc) {
+                            if !branch.contains(&w.delegs[i].1) {
+                                branch.push(w.delegs[i].1);
+                            }
+                        }
+                        let ps: Vec<usize> = branch.iter().copied().filter(|a| holders.contains(a)).collect();
+                        let p = if ps.is_empty() { parent } else { *r.pick(&ps) };
+                        let others: Vec<usize> = branch.iter().copied().filter(|a| *a != p && *a != sc).collect();
+                        let c = if !others.is_empty() && r.chance(1, 2) { *r.pick(&others) } else { child };
+                        (p, c)
+                    }
+                    _ => (parent, child),
+                };
+                if w.register_outcomes(parent, child).len() != 1 {
+                    rep.hit("dag.skipped_order_dependent_delegation");
+                    continue;
+                }
+                let held: Vec<usize> = (0..3).filter(|sx| parent == 0 || w.best_level(parent, *sx, now, true) > 0).collect();
+                let mut secs: Vec<usize> = held.iter().copied().filter(|_| r.chance(1, 2)).collect();
+                if secs.is_empty() {
+                    secs.push(if held.is_empty() || r.chance(1, 10) { r.below(3) as usize } else { *r.pick(&held) });
+                }
+                let own = secs.iter().map(|sx| if parent == 0 { 3 } else { w.best_level(parent, *sx, now, true) }).min().unwrap_or(1).max(1);
+                let level = if r.chance(1, 8) { 1 + r.below(3) as u8 } else { 1 + r.below(own as u64) as u8 };
+                let ttl_ms = if r.chance(1, 8) { Some(600_000) } else { None };
+                if w.delegs.iter().any(|d| d.1 == child && d.0 != parent) {
+                    two_parent = true;
+                }
+                let had = w.delegs.len();
+                go!(Op::Delegate { parent, child, secs, level, ttl_ms });
+                if stem.is_none() && w.delegs.len() > had {
+                    stem = Some((parent, child));
+                }
+                if r.chance(1, 10) {
+                    // something that is not a delegation: a direct grant, a membership
+                    let ent = 1 + r.below(na as u64 - 1) as usize;
+                    if r.chance(1, 2) {
+                        go!(Op::Grant { req: 0, ent, sec: r.below(3) as usize, level: 1 + r.below(3) as u8, plain_api: false });
+                    } else {
+                        let b = 1 + r.below(na as u64 - 1) as usize;
+                        if b != ent {
+                            go!(Op::AddMember { a: ent, b: Nd::Ent(b) });
+                        }
+                    }
+                }
+            }
+            if r.chance(1, 5) {
+                go!(Op::Reopen);
+            }
+            if r.chance(1, 6) && !w.delegs.is_empty() {
+                // a plain revocation of one record first: what hangs below it stays (as the code is)
+                let (p, c, _, _) = r.pick(&w.delegs).clone();
+                go!(Op::Undelegate { parent: p, child: c });
+            }
+            if ok && !w.delegs.is_empty() {
+                // prefer a record with something below it
+                let mut best = r.pick(&w.delegs).clone();
+                let thorough_pick = r.chance(1, 2);
+                let cands: Vec<(usize, usize, Vec<usize>, u32)> = if thorough_pick { w.delegs.clone() } else { (0..3).map(|_| r.pick(&w.delegs).clone()).collect() };
+                for cand in cands {
+                    if w.records_below(cand.0, cand.1).len() > w.records_below(best.0, best.1).len() && (thorough_pick || r.chance(3, 4)) {
+                        best = cand;
+                    }
+                }
+                biggest = biggest.max(w.records_below(best.0, best.1).len());
+                let (p, c) = match stem {
+                    Some(st) if stem_mode && round == 0 && r.chance(2, 3) && w.delegs.iter().any(|d| d.0 == st.0 && d.1 == st.1) => st,
+                    _ if r.chance(1, 12) => (1 + r.below(na as u64 - 1) as usize, best.1),
+                    _ => (best.0, best.1),
+                };
+                if stem == Some((p, c)) {
+                    stem = None;
+                }
+                go!(Op::UndelegateCascade { parent: p, child: c });
+                cascades += 1;
+            }
+        }
+        rep.hit(if ok { "dag.completed" } else { "dag.cut_short" });
+        let shape: Vec<String> = w.lines.iter().filter(|l| l.contains("deleg")).map(|l| l.split(' ').enumerate().filter(|(i, _)| *i != 1).map(|(_, x)| x).collect::<Vec<_>>().join(" ")).collect();
+        let key = shape.join(";");
+        rep.case("dag", if ok && cascades > 0 && biggest >= 2 && two_parent { Some(&key) } else { None });
+        if c == 0 {
+            rep.sample(json!({"stream": "dag", "policy": format!("{pol:?}"), "agents": na - 1, "max_delegation_depth": max_deleg, "trace": w.lines}));
         }
     }
 }
@@ -2189,8 +2776,8 @@ fn perm_stream(m: &mut Model, rep: &mut Report, root: &Rng, n: usize) {
 fn main() {
     let args = parse_args();
     let mut rep = Report::new(
-        "directed scenarios + seeded random histories (150-400 vault API calls each, root + 3-5 identities + 2 groups + the secrets' graph-node keys as requester strings, 4-8 secrets in up to 4 namespaces) + random raw permission graphs; \
-         a history is non-trivial when >=50 calls ran and >=10 succeeded, a permission graph when some non-root identity holds a level; distinct = distinct canonical trace",
+        "directed scenarios + random delegation graphs with cascading revocation (4-8 agents, 3 secrets) + seeded random histories (150-400 vault API calls each, root + 3-5 identities + 2 groups + the secrets' graph-node keys as requester strings, 4-8 secrets in up to 4 namespaces) + random raw permission graphs; \
+         a history is non-trivial when >=50 calls ran and >=10 succeeded, a permission graph when some non-root identity holds a level, a delegation graph when some agent had two delegating parents and a cascading revocation had at least two records below the revoked one; distinct = distinct canonical trace",
     );
     rep.expected_branches = [
         "get.ok", "get.err_denied", "get.err_insufficient", "get.err_not_found", "set.ok", "set.err_denied", "set.err_insufficient", "set.err_too_large",
@@ -2202,6 +2789,9 @@ fn main() {
         "unwrap.err_not_found", "undelegatec.ok", "undelegatec.records_revoked", "reopen.ok", "addmember.ok", "delmember.ok", "rawedge.ok", "rawedge.undirected", "rawedge.directed", "rawedge.sig_class0", "rawedge.sig_class1",
         "rawedge.sig_class2", "rawedge.sig_class3", "rawedge.sig_class4", "rawedge.type.OWNS", "rawedge.type.MEMBER_OF", "rawedge.type.VAULT_ACCESSX_ADMIN", "rawedge.type.VAULT_ACCESS", "rawedge.type.VAULT_ACCESS_FOO", "perm.answer.none", "perm.answer.1", "perm.answer.2", "perm.answer.3",
         "requester.secret_node_key", "requester.node_key_of_no_secret", "permq.none", "permq.1", "permq.2", "permq.3",
+        "delegate.child_with_second_parent", "delegate.child_at_two_depths", "undelegatec.shape.agent_reached_through_two_revoked_records",
+        "undelegatec.shape.agent_keeps_a_delegation_from_outside", "undelegatec.probe.revoked_pair_has_nothing", "undelegatec.probe.untouched_pair_keeps_access",
+        "undelegatec.probe.get_permission", "undelegatec.probe.get",
     ]
     .iter()
     .map(|s| s.to_string())
@@ -2213,15 +2803,18 @@ fn main() {
     directed(&mut m, &mut rep, &root.fork("directed"), &mut seen);
     let t_dir = t.elapsed().as_secs_f64();
     let (nh, np) = if args.thorough { (400, 6000) } else { (30, 500) };
+    dag_stream(&mut m, &mut rep, &root.fork("dag"), if args.thorough { 3000 } else { 150 });
+    let t_dag = t.elapsed().as_secs_f64();
     perm_stream(&mut m, &mut rep, &root.fork("perm"), np);
     let t_perm = t.elapsed().as_secs_f64();
     histories(&mut m, &mut rep, &root.fork("histories"), nh, &mut seen);
-    rep.note(&format!("stream wall times: directed {:.1}s, perm {:.1}s, histories {:.1}s", t_dir, t_perm - t_dir, t.elapsed().as_secs_f64() - t_perm));
+    rep.note(&format!("stream wall times: directed {:.1}s, dag {:.1}s, perm {:.1}s, histories {:.1}s", t_dir, t_dag - t_dir, t_perm - t_dag, t.elapsed().as_secs_f64() - t_perm));
     rep.note(&format!("corr_vault wall time {:.1}s", t.elapsed().as_secs_f64()));
     rep.note("TTL expiry is driven with real short TTLs (6-55 ms) and sleeps; calls are never started within 4 ms before / 0.4 ms after a pending expiry and a call that overlaps one aborts its history (counted as history.aborted_time_ambiguous)");
     rep.note("secret names are generated without '*' (a '*' turns a list pattern into a wildcard) and without '/' inside a namespace component; names/values shorter than 6 bytes are excluded from the plaintext scan");
     rep.note("requester strings: root, the named identities, and (about 1 call in 12 of a history, and the first directed scenario) the graph-node key `vault_secret:<obfuscated name>` of a secret, read from the graph, or a string of that form naming no secret; grantees, delegation children and raw-edge endpoints are always identities / groups / secret nodes");
-    rep.note("delegations are generated so that every child has at most one delegating parent at a time (DelegationManager::delegation_depth / is_ancestor pick a record by DashMap iteration order otherwise)");
+    rep.note("delegation graphs are not restricted to trees: an agent may hold delegations from several parents (same branch or not, equal or different depths, same or different secrets). DelegationManager::delegation_depth / is_ancestor take a record by DashMap iteration order, so a delegate call is generated only when every possible pick gives the same answer and the same stored depth (computed over the harness's own copy of the records; skipped calls are counted as dag.skipped_order_dependent_delegation)");
+    rep.note("every revoke_delegation_cascading call is followed by get_permission for every (agent, secret) pair (directed + dag streams: also before the call, and get for every pair afterwards); the records that have to go are computed from the harness's own copy of the delegation records (everything reachable from the revoked record, a record x->y being followed by every record y->z), independently of the call's answer and of the model");
     let _: Option<Value> = None;
     rep.write(&args.out);
 }
